@@ -8,6 +8,7 @@ CONSTANTS
   Forms = {"take", "read", "read_inst"}
   Kinds = {"V", "D"}
   Retransmit = FALSE
+  NoKey = FALSE
   GenK = 200
 CONSTRAINT Bound
 VIEW View
